@@ -158,6 +158,13 @@ TrDvWalk ==
          /\ nbad' = nbad + Report("dvwalk-built", badOf("built") \cup IfBad(Ev.err # "", <<"err", "dv", Ev.err>>))
                           + Report("dvwalk-merged", badOf("merged"))
 
+\* a complete observation made by one of several goroutines reading the segment at the same time:
+\* reads commute, so each must equal the sequential answer
+TrObs ==
+  /\ IsEv("obs")
+  /\ UNCHANGED <<segs, files, lcm>>
+  /\ Step("concurrent", CheckObs(segs[Ev.sid].c, Ev.obs))
+
 \* informational records of the harness (pool residue, garbage collection): no specification step
 TrNote == IsEv("note") /\ UNCHANGED <<segs, files, lcm>> /\ Step("note", {})
 
@@ -168,7 +175,7 @@ TrClose ==
 
 TrEnd == l = Len(Trace) + 1 /\ l' = l + 1 /\ PrintT(<<"ACCEPTED", Len(Trace), nbad>>) /\ UNCHANGED <<segs, files, lcm, nbad>>
 
-TraceNext == TrNote \/ TrDvWalk \/ TrReset \/ TrBuild \/ TrBuildFail \/ TrPersist \/ TrOpen \/ TrMerge \/ TrClose \/ TrEnd
+TraceNext == TrObs \/ TrNote \/ TrDvWalk \/ TrReset \/ TrBuild \/ TrBuildFail \/ TrPersist \/ TrOpen \/ TrMerge \/ TrClose \/ TrEnd
 
 TraceSpec == TraceInit /\ [][TraceNext]_traceVars
 
